@@ -36,6 +36,7 @@ type c23case struct {
 	M       int      `json:"m,omitempty"`
 	Script  string   `json:"script,omitempty"`
 	Comment string   `json:"comment,omitempty"`
+	Hist    []c23op  `json:"hist,omitempty"` // held-results history (C23_held_test.go)
 }
 
 func c23key(sym string) keypair.PublicKey {
@@ -569,6 +570,10 @@ func TestVerif_C23(t *testing.T) {
 	r.Bound(fmt.Sprintf("n<=17, all m, permutations for n<=%d; 8 key kinds: same-kind sets n<=16, kind multisets n<=%d; byte strings<=%d", permLimit, kindN, maxLen))
 
 	var rc c23case
+	if r.ReplayCase(&rc) && len(rc.Hist) > 0 {
+		c23heldRun(r, nil, rc.Hist)
+		return
+	}
 	if r.ReplayCase(&rc) && (rc.Script != "" || len(rc.Keys) > 0) {
 		if rc.Script != "" && len(rc.Keys) == 0 {
 			var b []byte
@@ -813,6 +818,9 @@ func TestVerif_C23(t *testing.T) {
 		r.ClassN(k, n)
 	}
 	r.Sample(c23case{Script: vh.Hex(corpus[6].script)})
+
+	// (4) results held across later calls (C23_held_test.go)
+	c23heldRun(r, mine, nil)
 	if r.R.NShards == 1 {
 		for _, c := range []string{"single:ok:keytype-k", "multi:ok:n=16:types-pseqk", "multi:rejected:m=0", "multi:rejected:m>n", "multi:rejected:n=1", "multi:rejected:n>16",
 			"parse:accepted-single:valid", "parse:accepted-multi:valid", "parse:rejected:mutated", "parse:rejected:short"} {
